@@ -312,7 +312,7 @@ ParsePrefix(P, st) ==
     [] ty \in {"NOT", "MINUS", "INCREMENT", "DECREMENT"} ->
          LET r == ParseExpr(P, NextTok(st), UNARY)
              bad == ty \in {"INCREMENT", "DECREMENT"} /\ ~UpdTarget(r.n)
-         IN R(Node("un", tk.lit, <<r.n>>), IF bad THEN AddErr(P, r.st, "invalid", st.i + 1) ELSE r.st)
+         IN R(Node("un", tk.lit, <<r.n>>), IF bad THEN AddErr(P, r.st, "invalid", r.st.i) ELSE r.st)      \* at the operand's LAST token
     [] ty = "LPAREN" ->
          LET e == ParseExpr(P, NextTok(st), LOWEST)
              x == Expect(P, e.st, "RPAREN")
